@@ -162,6 +162,7 @@ func tryPartial(env Env, nodes []ast.IsNode,
 	mkNode func(nodes []ast.IsNode) ast.IsNode,
 ) (ast.IsNode, error) {
 	var values []types.Value
+	orig := slices.Clone(nodes)
 	ok := true
 	for i, n := range nodes {
 		n, err := partial(env, n)
@@ -188,7 +189,8 @@ func tryPartial(env Env, nodes []ast.IsNode,
 			return nil, err
 		}
 		if IsVariable(v) {
-			return mkNode(nodes), errVariable
+			// hand back the original node: nodes now holds snapshots of values that contain the variable
+			return mkNode(orig), errVariable
 		} else if IsIgnore(v) {
 			return nil, errIgnore
 		}
